@@ -78,16 +78,32 @@ def chain_task(args):
         topics, parts, subs, _c = A.rand_input(rng, maxm=5 if small else 12)
         gen_mode = rng.random() < 0.5
         ud, states = None, {}
+        parked, gens = {}, {}       # members that dropped out keeping their (now stale) assignor state
         for rnd in range(rng.randint(1, rounds)):
+            gmap = {m: gens.get(m, rnd) for m in (ud or {})} if gen_mode else None
             case, objs = A.assign_case(topics, parts, subs, enum=False, ud=ud, states=states,
-                                       gen=(rnd if gen_mode else None), tag=f"chain:{seed}:{rnd}")
+                                       gen=gmap, tag=f"chain:{seed}:{rnd}")
             cases.append(case)
             last = objs.get("stickyud") or objs.get("sticky")
             if "stickyud" in case["fail"] or last is None:
                 hangs += 1
                 break
             ud = {m: a.encode() for m, a in last.items()}
+            gens = {m: rnd + 1 for m in ud}
+            old_subs = subs
             parts, subs = perturb(rng, topics, parts, subs)
+            for m in set(old_subs) - set(subs):
+                parked[m] = (ud[m], rnd + 1)         # kicked out of the group (session expiry), process still alive
+            if parked and rng.random() < 0.35:
+                # ... and comes back one or more generations later with the user data of its LAST assignment and
+                # whatever it subscribes to now (KIP-54: stale claims of an older generation lose against newer ones)
+                m = rng.choice(sorted(parked))
+                b, g0 = parked.pop(m)
+                if m not in subs:
+                    subs = dict(subs)
+                    subs[m] = rng.sample(topics, rng.randint(1, len(topics)))
+                    ud[m] = b
+                    gens[m] = g0
     bad, st, gen = tlc.run_table("Assignors", cfg, cases, shard=4000, jobs=1, spec_dir=A.SPEC_DIR)
     ev = sum(len(c["out"]) + len(c["fail"]) for c in cases)
     return {"n": len(cases), "evals": ev, "bad": [cases[j] for j in bad], "states": st, "gen": gen,
